@@ -380,6 +380,11 @@ def table_section(draw, cfg: Cfg, sec_index=0, multi=False):
             body["col_rel_width"] = [draw(st.integers(1, 10)) for _ in range(ncol)]
         elif m == 8:
             body["col_rel_width"] = [draw(st.sampled_from([1, 2.5]))]
+        else:
+            # documented form: one width per DISPLAYED column (page_by / subline_by columns left out)
+            nd = ncol - len(set(subline_by)) - (len(set(page_by)) if (page_by and (not body.get("new_page") or body.get("pageby_row", "column") != "column")) else 0)
+            if 0 < nd < ncol:
+                body["col_rel_width"] = [draw(st.integers(1, 6)) for _ in range(nd)]
     elif draw(st.integers(0, 9)) < 4:
         body["col_rel_width"] = [draw(st.sampled_from([0.5, 1, 1.5, 2, 3.3])) for _ in range(ncol)]
     if cfg.attrs:
